@@ -68,7 +68,8 @@ class Fusion:
         # rank
         fused_ranks: List[str]
         if space_ranks:
-            fused_ranks = loop_ranks[:loop_ranks.index(space_ranks[0])]
+            fused_ranks = loop_ranks[:min(loop_ranks.index(rank)
+                                          for rank in space_ranks)]
         else:
             fused_ranks = loop_ranks
 
